@@ -18,6 +18,9 @@ package equal
 //@ emits: expr
 //@ o-operands: thisField:fieldType thatField:fieldType -> bool
 //@ o-pure
+// a named component with its own Equal method is compared by that method, also
+// where the generator decides without looking for one
+//@ o-fork: usermethod equal.equalMethodInputParam fieldType
 //@ o-ensures: [field] r <==> EqC(fieldType, thisField, thatField)
 
 //@ func (g *gen) genStatement(typ types.Type, this, that string) (err error)
